@@ -143,6 +143,12 @@ func parseStrace(raw, path string) []sysEvent {
 				fds[ret] = true
 			}
 			evs = append(evs, ev)
+		case "fcntl":
+			// the helper calls fcntl(fd, F_GETFD) right after a File-returning call returned
+			if len(parts) >= 2 && fds[fdOf(parts[0])] && parts[1] == "F_GETFD" {
+				ev.Name, ev.Arg = "returned", ""
+				evs = append(evs, ev)
+			}
 		case "flock", "ftruncate", "pwrite64", "write", "read", "close":
 			if len(parts) == 0 || !fds[fdOf(parts[0])] {
 				continue
